@@ -49,7 +49,7 @@ def check(run):
             cases.append({'backend': rng.choice(['file', 'redis']), 'nworkers': 3, 'sched_seed': rng.randrange(10 ** 9), 'late': {2: rng.randint(5, 60)}})
             cases.append({'backend': rng.choice(['file', 'redis']), 'nworkers': 3, 'sched_seed': rng.randrange(10 ** 9), 'max_tasks': {0: 1}})
             for params in cases:
-                if params['backend'] in ('file', 'filepack'):
+                if params['backend'] in ('file', 'filepack') and not params.get('operator'):     # the operator's command runs between store operations of the workers, not inside one
                     params['fs_gates'] = True       # workers also interleave between the file-system primitives of the lock operations
                 c = run_one(run, drv, P, scratch, params)
                 cont = X.contention(c.trace)
